@@ -26,6 +26,13 @@ def main():
     except ImportError as e:
         common.die_machinery('no check for %s (%s)' % (prop, e))
     replay = common.load_replay(a.replay) if a.replay else None
+    if replay:
+        # a replay file names the run it came from: the same tier and seed
+        # regenerate the same inputs; the run reports whether the recorded
+        # signature shows again (evidence files are left alone)
+        a.tier = replay.get('tier', a.tier)
+        a.seed = int(replay.get('seed', a.seed))
+        os.environ['VERIF_REPLAY_SIG'] = replay.get('signature', '')
     try:
         rc = mod.main(a.tier, a.seed, replay)
     except common.MachineryError as e:
